@@ -47,7 +47,8 @@ def main():
         meta["demo_changed_exit"] = rc1
         meta["demo_changed_tail"] = out1.strip().splitlines()[-1][:300] if out1.strip() else ""
         meta["confirmed"] = (rc0 == 0 and rcs == 0 and rc1 != 0)
-        env2 = dict(env, VERIF_REPO=wt)
+        import tempfile
+        env2 = dict(env, VERIF_REPO=wt, VERIF_EVIDENCE_DIR=tempfile.mkdtemp(prefix="seed_evidence_"))
         for p in props:
             t0 = time.time()
             rc, out = run([os.path.join(VERIF, "check"), p, "--tier", "quick"], cwd=VERIF, env=env2)
